@@ -170,6 +170,17 @@ func init() {
 			bound: "DecodeHex against an independent specification for every hex string of length 0..3 (both letter cases, with and without 0x/0X prefix); EncodeHex/DecodeHex round trips for every byte string of length 0..1, a sixteenth of length 2, and seeded random strings of 20..4096 bytes (lower and upper case spelling); EncodeUint64/DecodeUint64 round trips at 13 boundary values and seeded random ones, with padding and upper case",
 		})}
 	})
+	// what a block contributes to the table (C01/C02 treat it as "the rows of block n"):
+	// the same stand-ins that decide it for C11/C12/C14
+	for _, pid := range []string{"C01", "C02"} {
+		pid := pid
+		boundedChecks[pid] = append(boundedChecks[pid], func(w *World, tier string, seed int, verif string) []boundedResult {
+			return []boundedResult{runHarness(w, verif, tier, seed, harnessSpec{
+				name: "pushdown-loses-nothing", pkg: "dig", pkgName: "dig", dir: "plan", files: []string{"plan_bounded_test.go", "pushdown_bounded_test.go"}, run: "TestVerifPushdownBounded",
+				bound: "see C12: 432 filter configurations, the scripted node applying vs ignoring the eth_getLogs address restriction: the rows stored for a block are the same",
+			})}
+		})
+	}
 	boundedChecks["C09"] = append(boundedChecks["C09"], func(w *World, tier string, seed int, verif string) []boundedResult {
 		return []boundedResult{runHarness(w, verif, tier, seed, harnessSpec{
 			name: "abi-decode-vs-spec", pkg: "dig", pkgName: "dig", dir: "abi", files: []string{"abi_bounded_test.go"}, run: "TestVerifABIBounded",
